@@ -28,7 +28,7 @@ def competitor_scenario(r, coin="bitcoin", callback="csvdump", T=None, kinds=Non
         comp_name = names[comp_file_no]
     else:
         per_file = r.choice([None, 2, 3])
-        GC.simple_layout(s, active, per_file=per_file)
+        GC.simple_layout(s, active, per_file=per_file, r=r, swap=r.choice([0.0, 0.0, 0.4]))     # sometimes in arrival order inside a file
         # competitors' data goes to a separate file
         comp_file_no = 7
         comp_name = K.blkname(comp_file_no)
